@@ -43,9 +43,17 @@ def job(j):
     warnings.simplefilter("ignore")
     from numbers_parser import Document, FractionAccuracy, NegativeNumberStyle
     doc = Document(num_rows=len(cases), num_cols=1, num_header_rows=0, num_header_cols=0)
-    tb = doc.sheets[0].tables[0]
+    tables = [doc.sheets[0].tables[0]]
+    if idx % 2:
+        # the formats of one document's tables are independent: cases alternate between the first table, a table added to the same
+        # sheet and a table on an added sheet, so that their formats are allocated interleaved
+        tables.append(doc.sheets[0].add_table("Second", num_rows=len(cases), num_cols=1, num_header_rows=0, num_header_cols=0))
+        doc.add_sheet("Other", "Third", len(cases), 1)
+        tables.append(doc.sheets[1].tables[0])
     events = []
     for i, (v, fmt) in enumerate(cases):
+        ti = i % len(tables)
+        tb = tables[ti]
         tb.write(i, 0, v)
         kw = dict(fmt)
         kind = kw.pop("kind")
@@ -68,18 +76,18 @@ def job(j):
         except Exception as e:  # noqa: BLE001
             events.append({"kind": kind, "fmt": fmt, "value": v, "refused": "%s:%s" % (type(e).__name__, str(e)[:60])})
             continue
-        events.append({"kind": kind, "fmt": fmt, "value": v, "row": i})
-    t2 = tb
+        events.append({"kind": kind, "fmt": fmt, "value": v, "row": i, "t": ti})
     path = os.path.join(scratch, "c13-%d-%d.numbers" % (os.getpid(), idx))
     if reopen:
         doc.save(path)
-        t2 = Document(path).sheets[0].tables[0]
+        d2 = Document(path)
+        tables = [d2.sheets[0].tables[0]] + ([d2.sheets[0].tables[1], d2.sheets[1].tables[0]] if len(tables) == 3 else [])
         os.remove(path)
     for e in events:
         if "row" not in e:
             continue
         try:
-            c = t2.cell(e["row"], 0)
+            c = tables[e["t"]].cell(e["row"], 0)
             e["text"] = c.formatted_value
             e["cellvalue"] = c.value
         except Exception as ex:  # noqa: BLE001
